@@ -50,6 +50,9 @@ def _config_child(module_name, cfg, queries, Ks, timeout_s, seed, conn, extra_mo
         w.publication_functions = set(info.get("publication_functions", ()))
         w.fork_functions = set(info.get("fork_functions", ()))
         w.files = dict(info.get("files", {}))
+        w.storage_files = info.get("storage_files")
+        for pn in info.get("shared_prims", ()):  # known to be shared: visible from the first exploration pass on
+            w.prim_access[pn] = {"<declared shared>", "<by the harness>"}
         S = driver.build(w, built["scenario"], built["args"])
         res["build_s"] = round(time.time() - t0, 2)
         res["stats"] = S.stats()
